@@ -442,7 +442,28 @@ def check_guess(ctx):
     ctx.floor(R, n, 2)
 
 
+def check_io(ctx):
+    R = "C15-IO"
+    ctx.rule(R, "RVData.from_timeseries hands the columns it read to the constructor as read: the table is not re-ordered or filtered first (the constructor sorts rows AND, for "
+                "a covariance, columns together; sorting the table rows alone separates them) and t_ref comes from the file's metadata.")
+    fn = ctx.prog.func(DT, "RVData.from_timeseries", R)
+    ws = A.storage_writes(fn, lambda e: isinstance(e, ast.Call) and (A.call_name(e) or "").split(".")[-1] == "read" and "TimeSeries" in (A.call_name(e) or ""))
+    ctx.check(R, ws[0][0] if ws else fn, "the table read from the file is not modified before construction", not ws,
+              (ws[0][1] if ws else "").replace("the input", "the table that was read"), key="ts-write")
+    flow = A.Flow(fn)
+    okc = False
+    why = "no `cls(t=ts['time'], rv=ts['rv'], rv_err=ts['rv_err'], t_ref=...)` return"
+    for v, s in flow.returns:
+        if isinstance(v, ast.Call) and canon(v.func) in ("cls", "RVData"):
+            got = {kw: A.get_arg(v, pos, kw) for pos, kw in ((0, "t"), (1, "rv"), (2, "rv_err"))}
+            okc = all(g is not None and isinstance(g, ast.Subscript) and A.str_const(g.slice) == col and isinstance(g.value, ast.Call) and "TimeSeries" in (A.call_name(g.value) or "")
+                      for (kw, g), col in zip(got.items(), ("time", "rv", "rv_err")))
+            why = "constructor receives %s" % {k: A.unparse(g)[:40] if g is not None else None for k, g in got.items()}
+    ctx.check(R, fn, "time, rv and rv_err columns go to the constructor unchanged", okc, why, key="ts-cols")
+
+
 def run(ctx):
+    check_io(ctx)
     check_guess(ctx)
     check_lock(ctx)
     check_ivar(ctx)
